@@ -170,6 +170,28 @@ idx = 0
 for form, n in (("plain",N_PLAIN),("local",N_LOCAL),("auto",N_AUTO)):
     for _ in range(n):
         decls.append(gen_decl(idx, form)); idx += 1
+# hand-picked adversarial declarations (appended, so the numbering of the random ones is stable):
+# empty values that can trade places between labels, and values whose concatenations coincide
+def fixed(form, kind, levels, enum_at=()):
+    global idx
+    lv = []
+    for li,(lab,vals) in enumerate(levels):
+        lv.append({"label":lab,"values":vals,"enum": f"E{idx}L{li}" if li in enum_at else None})
+    perm = [l[0] for l in levels]
+    rnd.shuffle(perm)
+    decls.append({"idx":idx,"form":form,"kind":kind,"levels":lv,"vec_labels":perm}); idx += 1
+EMPTY = [("none",""),("timeout","timeout"),("ok","ok")]
+SHIFT1 = [("va","ab"),("vb","a"),("vc","")]
+SHIFT2 = [("p","c"),("q","bc"),("r","abc")]
+fixed("plain","IntCounter",[("read",EMPTY),("write",EMPTY)])
+fixed("local","LocalIntCounter",[("read",EMPTY),("write",EMPTY)],enum_at=(1,))
+# (a value named `x` collides with a local variable of make_auto_flush_static_metric!'s generated
+# code and does not compile - see DESIGN.md 13.7 - so no value is called x)
+fixed("auto","LocalCounter",[("read",EMPTY),("write",EMPTY)])
+fixed("plain","Counter",[("la",SHIFT1),("lb",SHIFT2)],enum_at=(0,))
+fixed("local","LocalHistogram",[("la",SHIFT1),("lb",SHIFT2)])
+fixed("plain","IntGauge",[("la",EMPTY[:2]),("lb",EMPTY[:2]),("kind",EMPTY[:2])])
+fixed("auto","LocalIntCounter",[("la",SHIFT1),("lb",SHIFT2)])
 out = ["// GENERATED by tools/gen_static.py (seed %d) - do not edit\n" % SEED,
        "use crate::glue::*;\nuse prometheus::core::Collector;\nuse prometheus::local::*;\nuse prometheus::*;\nuse prometheus_static_metric::{auto_flush_from, make_auto_flush_static_metric, make_static_metric};\n\n"]
 infos = []
